@@ -115,7 +115,7 @@ impl Property for C17 {
 
     fn runs(&self, tier: Tier) -> u64 {
         match tier {
-            Tier::Quick => 6 * 16 * 4,
+            Tier::Quick => 6 * 16 * 12,
             Tier::Thorough => 6 * 16 * 120,
         }
     }
